@@ -26,8 +26,13 @@ def make_file(rng, style='plain'):
         if kw not in have and kw != 'CGLS' and rng.random() < 0.7:
             if kw == 'L.S.' and 'CGLS' in have:
                 continue
+            if kw == 'L.S.':        # either refinement method, in any letter case (keywords are case-insensitive)
+                l = rng.choice(['L.S. 10', 'CGLS 10 2', 'cgls 8', 'Cgls 5 0 3', 'l.s. 4', 'L.S. 12 0 2'])
             extra.append(l)
     lines[fv:fv] = extra
+    for i, l in enumerate(lines):       # an existing cycles instruction in lower / mixed case now and then
+        if l[:4].upper() in ('CGLS', 'L.S.') and rng.random() < 0.3:
+            lines[i] = (l[:4].lower() if rng.random() < 0.5 else l[:1] + l[1:4].lower()) + l[4:]
     if rng.random() < 0.5:
         lines.append('WGHT 0.0432 1.234')
     return '\n'.join(lines) + '\n'
@@ -122,7 +127,7 @@ def run(ctx):
                                      {'text': text, 'history': h.log, 'written': w}, exp[max(0, i - 1):i + 2], got[max(0, i - 1):i + 2])
                 ok = False
                 break
-        if ok and init_lit and h.mops and len(coq_cases) < (1500 if ctx.thorough() else 60):
+        if ok and init_lit and h.mops and not any(m[0] == 'skip' for m in h.mops) and len(coq_cases) < (1500 if ctx.thorough() else 60):
             final = im.write_text(shx).rstrip('\n').split('\n')
             if all(ascii_ok(l) for l in final) and all(ascii_ok(p) for m in h.mops if m[0] != 'del' for p in m[2]):
                 coq_cases.append((init_lit, [mop_literal(m) for m in h.mops], final, sorted(shx.delete_on_write), h.log))
@@ -149,7 +154,7 @@ def run(ctx):
     ctx.cov['evaluations'] = ev + len(coq_cases)
     ctx.cov['distinct_nontrivial'] = ev
     ctx.cov['rule'] = ('generator files (two FVAR / SFAC lines in about half of them, PLAN / L.S. or CGLS / WGHT / ACTA present, suggested WGHT after END, wild layout for '
-                       'every fourth file) x random histories of 1-12 operations out of add_line, insert_anis, delete atom (both forms), rename, element change (known and '
+                       'every fourth file) x random histories of 1-12 operations out of add_line (one instruction or a block of several), insert_frag_fend_entry, insert_anis, delete atom (both forms), rename, element change (known and '
                        'new element), to_isotropic, PLAN set, cycles, WGHT assignment / update_weight, remove / restore ACTA; the written file is checked after every step')
     ctx.notes.setdefault('coverage_extra', {})['operation_histogram'] = ophist
     ctx.assumptions += ['the text an object prints after a setter is taken from the implementation in the model replay (the model is about positions); the failing-input search '
